@@ -23,6 +23,8 @@ SHARD_TIMEOUT = {"quick": 400, "thorough": 3000}
 
 STR_ELEMS = ["'a'", "'b'", "'ab'", "'B'", "''", "'z'", "'é'", "'10'", "'9'", "'a b'"]
 MIX_ELEMS = ["1", "2", "10", "-3", "1.5", "0.5", "7", "100", "42"]
+SET_ELEMS = ["<<1, 2>>", "<<3>>", "<<'ab', 'cd'>>", "<<'cd', 'ef'>>", "<<2, 5>>", "<<9>>", "<<>>", "<<8>>", "<<1>>", "<<'a'>>", "<<'b', 'a'>>", "<< <<1>> >>"]   # subset order is partial
+LIST_ELEMS = ["[1]", "[1, 2]", "[2]", "['a']", "[]", "[[1]]", "[1.5]", "['a', 'b']"]
 DEC_ELEMS = ["0.1", "0.2", "0.7", "0.3", "10000000000000000.0", "-10000000000000000.0", "1.1", "2.2", "3.3", "1"]      # sums that depend on the order of addition
 
 # (name, program template); {S} a set literal, {S2} a second one, {M} a map literal, {L} list of the set elements
@@ -103,9 +105,17 @@ PUN_ELEMS = ["TRUE", "1", "FALSE", "0", "'ab'", "//ab//", "2", "'1'", "'TRUE'", 
 def gen_collections(r):
     """element lists for S, S2, M (as source strings)"""
     k = r.random()
-    pool = STR_ELEMS if k < 0.4 else (MIX_ELEMS if k < 0.65 else (PUN_ELEMS if k < 0.8 else DEC_ELEMS))
+    pool = STR_ELEMS if k < 0.3 else (MIX_ELEMS if k < 0.5 else (PUN_ELEMS if k < 0.62 else (DEC_ELEMS if k < 0.74 else (SET_ELEMS if k < 0.88 else LIST_ELEMS))))
     a = r.sample(pool, r.randint(2, 5))
     b = r.sample(pool, r.randint(2, 4))
+    if r.random() < 0.05:
+        # collections beyond the size thresholds of any fast path
+        big = r.choice(["int", "str", "set", "list"])
+        n_ = r.choice([130, 200, 300])
+        xs = r.sample(range(1000, 99999), n_)
+        mk = {"int": lambda x: str(x), "str": lambda x: "'s%d'" % x, "set": lambda x: "<<%d, %d>>" % (x, x + 1 + x % 3), "list": lambda x: "[%d, %d]" % (x % 7, x)}[big]
+        a = [mk(x) for x in xs]
+        b = [mk(x) for x in xs[: n_ // 2]] + [mk(x + 100000) for x in xs[:5]]
     keys = r.sample(STR_ELEMS if r.random() < 0.7 else MIX_ELEMS, r.randint(2, 4))
     vals = [r.choice(pool + ["NULL", "[1]"]) for _ in keys]
     skeys = r.sample(["'a'", "'b'", "'ab'", "'z'"], r.randint(1, 4))
